@@ -13,7 +13,7 @@ FIX = dict(FixF1="TRUE", FixF2="TRUE", FixF3="TRUE")
 
 INV = {
     "C06": ["C06_Sound", "C06_CompleteSlice", "C06_SingleOne"],
-    "C07": ["C07_Exactly", "C07_MissingFails", "C09_NoPanic"],
+    "C07": ["C07_Exactly", "C07_MissingFails", "C07_Untouched", "C09_NoPanic"],
     "C08": ["C08_Qualifier", "C08_Preference", "C08_Independent"],
     "C10": ["C10_Status", "C10_Point"],
 }
